@@ -272,33 +272,49 @@ structure ArgSt where
   parens : Nat := 0              -- open_parens (uint8_t)
   deriving Repr
 
+/-- what one character does to the argument collector -/
+inductive ArgAct where
+  | skip                         -- the character is dropped
+  | fail                         -- an error is printed, NULL returned
+  | esc (s : ArgSt)              -- backslash inside a literal: the next character is stored unseen
+  | cont (s : ArgSt)
+  | done (args : List (List Ch)) -- the closing parenthesis
+  deriving Repr
+
+/-- one pass of the argument loop of macros_expand_params, after the character was read -/
+def argStep (s : ArgSt) (c0 : Ch) : ArgAct :=
+  let c := if c0 = 9 then ch ' ' else c0
+  if c = 13 then .skip
+  else if s.ptr + 3 ≥ 1024 ∨ s.done.length ≥ 255 then .fail               -- "Macro parameters too long"
+  else if c = ch ' ' ∧ s.cur = [] then .skip                               -- blanks after '(' and ','
+  else if c = ch '\\' ∧ (s.inStr ∨ s.inTick) then .esc { s with cur := c :: s.cur, ptr := s.ptr + 1 }
+  else
+    let inStr := if c = ch '"' ∧ !s.inTick then !s.inStr else s.inStr
+    let inTick := if c = ch '\'' ∧ !inStr then !s.inTick else s.inTick
+    if c = ch ')' ∧ !inStr ∧ !inTick ∧ s.parens = 0 then .done ((s.cur.reverse :: s.done).reverse)
+    else if c = 10 ∨ c = EOFc then .fail                                   -- "Macro expects ')'"
+    else if c = ch ',' ∧ !inStr ∧ !inTick ∧ s.parens = 0 then
+      .cont { s with done := s.cur.reverse :: s.done, cur := [], ptr := s.ptr + 1,
+                     inStr := inStr, inTick := inTick }
+    else
+      let parens :=
+        if c = ch '(' ∧ !inStr ∧ !inTick then (s.parens + 1) % 256
+        else if c = ch ')' ∧ !inStr ∧ !inTick then (s.parens + 255) % 256
+        else s.parens
+      .cont { s with cur := c :: s.cur, ptr := s.ptr + 1, inStr := inStr, inTick := inTick,
+                     parens := parens }
+
 /-- the argument loop of macros_expand_params (after the opening parenthesis) -/
 def argLoop : Nat → ArgSt → Prog ArgsRes
   | 0, _ => .ret .fuel
   | n + 1, s =>
     .get fun c0 =>
-      let c := if c0 = 9 then ch ' ' else c0
-      if c = 13 then argLoop n s
-      else if s.ptr + 3 ≥ 1024 ∨ s.done.length ≥ 255 then .ret .fail      -- "Macro parameters too long"
-      else if c = ch ' ' ∧ s.cur = [] then argLoop n s
-      else if c = ch '\\' ∧ (s.inStr ∨ s.inTick) then
-        .get fun c2 => argLoop n { s with cur := c2 :: c :: s.cur, ptr := s.ptr + 2 }
-      else
-        let inStr := if c = ch '"' ∧ !s.inTick then !s.inStr else s.inStr
-        let inTick := if c = ch '\'' ∧ !inStr then !s.inTick else s.inTick
-        if c = ch ')' ∧ !inStr ∧ !inTick ∧ s.parens = 0 then
-          .ret (.ok ((s.cur.reverse :: s.done).reverse))
-        else if c = 10 ∨ c = EOFc then .ret .fail                          -- "Macro expects ')'"
-        else if c = ch ',' ∧ !inStr ∧ !inTick ∧ s.parens = 0 then
-          argLoop n { s with done := s.cur.reverse :: s.done, cur := [], ptr := s.ptr + 1,
-                             inStr := inStr, inTick := inTick }
-        else
-          let parens :=
-            if c = ch '(' ∧ !inStr ∧ !inTick then (s.parens + 1) % 256
-            else if c = ch ')' ∧ !inStr ∧ !inTick then (s.parens + 255) % 256
-            else s.parens
-          argLoop n { s with cur := c :: s.cur, ptr := s.ptr + 1, inStr := inStr, inTick := inTick,
-                             parens := parens }
+      match argStep s c0 with
+      | .skip => argLoop n s
+      | .fail => .ret .fail
+      | .esc s' => .get fun c2 => argLoop n { s' with cur := c2 :: s'.cur, ptr := s'.ptr + 1 }
+      | .cont s' => argLoop n s'
+      | .done args => .ret (.ok args)
 
 /-- the walk over the definition: `(text, bad)`; `bad` = stopped at a bad parameter reference -/
 def expandText (args : List (List Ch)) : List Ch → List Ch × Bool
@@ -341,6 +357,27 @@ def expandParams (n : Nat) (define : List Ch) (paramCount : Nat) : Prog ExpRes :
               | .ok => .ret (.ok text)
               | .exit => .ret .exit
               | _ => .ret .fail
+
+/-- outcome of entering a macro -/
+inductive EnterRes where
+  | entered      -- text pushed, mark set
+  | pushFail     -- macros_push_define failed: error_count++
+  | fail         -- macros_expand_params returned NULL: error = 1
+  | exit
+  | fuel
+  deriving Repr, DecidableEq
+
+/-- the macro branch of tokens_get up to the recursive call: macros_expand_params (when the
+    macro has parameters), macros_push_define, `unget_stack[++unget_stack_ptr] = unget_ptr` -/
+def enterMacro (n : Nat) (d : MacroDef) : Prog EnterRes :=
+  if d.params = 0 then .push d.text false fun ok => .ret (if ok then .entered else .pushFail)
+  else
+    (expandParams n d.text d.params).bind fun r =>
+      match r with
+      | .ok text => .push text true fun ok => .ret (if ok then .entered else .pushFail)
+      | .fail => .ret .fail
+      | .exit => .ret .exit
+      | .fuel => .ret .fuel
 
 /-! ### post-processing of tokens_get -/
 
@@ -418,20 +455,15 @@ def tokensGetD (env : Env) : Nat → Nat → Prog Tok
             | none =>
               match lookupDef env.defs tok with
               | some d =>
-                let enter (text : List Ch) (arena : Bool) : Prog Tok :=
-                  .push text arena fun ok =>
-                    if !ok then .ret { ty := .eof, text := tok, errs := raw.errs + 1 }
-                    else
-                      (tokensGetD env dep n).bind fun t =>
-                        .ret { t with text := octalFix t.ty t.text, errs := t.errs + raw.errs }
-                if d.params = 0 then enter d.text false
-                else
-                  (expandParams n d.text d.params).bind fun r =>
-                    match r with
-                    | .ok text => enter text true
-                    | .fail => .ret { ty := .eof, text := tok, errs := raw.errs, flag := true }
-                    | .exit => .ret { ty := .eof, text := tok, errs := raw.errs, fatal := true }
-                    | .fuel => .ret { ty := .eof, text := tok, errs := raw.errs, fuel := true }
+                (enterMacro n d).bind fun e =>
+                  match e with
+                  | .entered =>
+                    (tokensGetD env dep n).bind fun t =>
+                      .ret { t with text := octalFix t.ty t.text, errs := t.errs + raw.errs }
+                  | .pushFail => .ret { ty := .eof, text := tok, errs := raw.errs + 1 }
+                  | .fail => .ret { ty := .eof, text := tok, errs := raw.errs, flag := true }
+                  | .exit => .ret { ty := .eof, text := tok, errs := raw.errs, fatal := true }
+                  | .fuel => .ret { ty := .eof, text := tok, errs := raw.errs, fuel := true }
               | none =>
                 let (ty', tok') := stringNumber env tok
                 .ret { ty := ty', text := octalFix ty' tok', errs := raw.errs }
